@@ -251,6 +251,12 @@ class NumpyModel:
                     return getattr(base, name)(*args, **kwargs)
                 except TypeError as ex:
                     raise _raise("TypeError", node, str(ex))
+            if hasattr(base, name) and not name.startswith("_") and all(isinstance(a, (str, int, bool, tuple, type(None))) for a in args):
+                try:
+                    r = getattr(base, name)(*args, **kwargs)   # str is immutable: every str method is pure
+                    return list(r) if isinstance(r, tuple) and False else r
+                except (TypeError, ValueError, IndexError, KeyError) as ex:
+                    raise _raise(type(ex).__name__, node, str(ex))
             raise Unsupported(f"str method {name}", node)
         if isinstance(base, set):
             if name == "pop":
